@@ -6,7 +6,11 @@
       hkdf_extract, hkdf_expand (the `chunks_mut(os)` loop, the one-byte counter with `checked_add`, `if n != 1`, the copy of a
       partial last block),
       calculate_block (first iteration, `if c > 1`, `for _ in 2..c`, the xor zips), pbkdf2 (`assert!(c > 0)`, the scratch vector
-      allocated once, the `chunks_mut(os)` loop with the u32 block index, full / partial blocks).
+      allocated once, the `chunks_mut(os)` loop with the u32 block index, full / partial blocks),
+      xor (three-way zip), scrypt_block_mix (`left_over`, the `chunks(64).enumerate()` loop, the even/odd output position),
+      integerify, scrypt_ro_mix (fill loop over `v.chunks_mut(len)`, walk loop with the `v[j*len..(j+1)*len]` slice),
+      ScryptParams::new (every assert and checked_mul), scrypt (the buffers, the per-chunk loop, the two PBKDF2 calls);
+      `salsa20_8` is used through the model's function over the re-extracted row table (Props/C10/Scrypt.lean).
   The theorems below, re-checked by the kernel on every build, say that the hand models of Impl/Kdf.lean — about which C10 is
   proved (Props/C10/Kdf.lean, Props/C10/Scrypt.lean) — compute exactly what the source says NOW, for ALL inputs of every length
   and every digest / MAC object.  A semantic change of the glue (a counter check, a loop bound, a buffer that is not
@@ -19,12 +23,18 @@
       length only (every byte is overwritten, or the function panics);
     * `for chunk in buf.chunks_mut(os)`: the source-level loop runs over `chunks os buf` and rebuilds the buffer from the
       chunks as the body leaves them; the models run over the chunk LENGTHS `chunkLens os buf.len()` (`chunks_lengths`);
+    * `scrypt_ro_mix`: the model keeps the scratch vector `v` as the list of its `len`-byte chunks, the source as one byte
+      vector: `v = vs.flatten` (`scrypt_ro_mix_src_eq_model` for EVERY `v` via `chunks`; the chunk structure is preserved);
+    * `scrypt`: `params.log_n < 64` (the shift `1 << log_n` of an overflow-checked build; established by `ScryptParams::new`:
+      `new_establishes_log_n`, the fields are private);
+    * usize `+`/`*` of lengths and indices are the mathematical operations (as in the hand model); `-` is checked;
     * `Hmac<D>` / `M: Mac` are used through the model's `Hmac.*` functions / the dictionary `MacModel μ`, which
       Props/C05/GlueTieMac.lean ties to src/hmac.rs.
 -/
 import CxVerif.Proofs.GlueKdf
+import CxVerif.Proofs.GlueKdfScrypt
 namespace Cx.Props.C10.GlueTieKdf
-open Cx Cx.Impl.Digest Cx.Impl.Hmac Cx.Impl.Kdf Cx.Extracted.GlueKdf Cx.Proofs.GlueKdf
+open Cx Cx.Impl.Digest Cx.Impl.Hmac Cx.Impl.Kdf Cx.Extracted.GlueKdf Cx.Proofs.GlueKdf Cx.Proofs.GlueKdfScrypt
 
 /-! ## src/hkdf.rs -/
 
@@ -69,5 +79,76 @@ theorem pbkdf2_src_eq_model {μ : Type} (M : MacModel μ) (mac : μ) (salt : Byt
 /-- the chunk lists agree: `buf.chunks_mut(os)` has the lengths `chunkLens os buf.len()` -/
 theorem chunks_lengths_eq_model (os : Nat) (h : 0 < os) (buf : Bytes) : (chunks os buf).map List.length = chunkLens os buf.length :=
   chunks_lengths os h buf
+
+/-! ## src/scrypt.rs -/
+
+/-- `xor(x, y, output)`: the three-way zip stops at the shortest; the rest of `output` is untouched -/
+theorem xor_src_eq_model (x y output : Bytes) : xor_src x y output = Impl.Kdf.xor x y output := xor_src_eq output x y
+
+/-- the body of `for (i, chunk) in input.chunks(64).enumerate()`: xor, `salsa20_8`, the output position
+    `(i / 2) * 64 [+ input.len() / 2]`, the bounds-checked copy — for every chunk list and loop state -/
+theorem scrypt_block_mix_loop_src_eq_model (input : Bytes) (cs : List Bytes) (i : Nat) (output x t : Bytes) :
+    (scrypt_block_mix_loop1_src input cs i output x t).map (·.2.1) = scrypt_block_mix_loop input.length cs i x t output :=
+  block_mix_loop1_eq input cs i output x t
+
+/-- `scrypt_block_mix` for EVERY input and output buffer (incl. the refusals: fewer than 64 bytes, not a multiple of 64, an
+    output that is too short) -/
+theorem scrypt_block_mix_src_eq_model (input output : Bytes) : scrypt_block_mix_src input output = scrypt_block_mix input output :=
+  scrypt_block_mix_src_eq input output
+
+/-- `integerify`: `n - 1` (checked), the 4 bytes at `len - 64`, the mask -/
+theorem integerify_src_eq_model (x : Bytes) (n : Nat) : integerify_src x n = integerify x n := integerify_src_eq x n
+
+/-- the fill loop `for chunk in v.chunks_mut(len) { chunk[0..b.len()].copy_from_slice(b); scrypt_block_mix(chunk, b) }` -/
+theorem scrypt_ro_mix_fill_src_eq_model (cs : List Bytes) (b acc : Bytes) :
+    scrypt_ro_mix_loop1_src cs b acc = (ro_mix_fill cs b []).map (fun r => (r.1, acc ++ r.2.reverse.flatten)) :=
+  ro_mix_loop1_eq cs b acc
+
+/-- the walk loop `for _ in 0..n { j = integerify(b, n); xor(b, &v[j*len..(j+1)*len], t); scrypt_block_mix(t, b) }` on a
+    scratch vector made of `len`-byte chunks -/
+theorem scrypt_ro_mix_walk_src_eq_model (len : Nat) (hl : 0 < len) (vs : List Bytes) (hvs : ∀ c ∈ vs, c.length = len) (n cnt : Nat)
+    (b t : Bytes) : scrypt_ro_mix_loop2_src vs.flatten n len cnt b t = ro_mix_walk vs n cnt b t :=
+  ro_mix_loop2_eq len hl vs hvs n cnt b t
+
+/-- `scrypt_ro_mix` for EVERY `b ≠ []`, `v`, `t`, `n`: the source on the byte vector `v` = the model on its chunks -/
+theorem scrypt_ro_mix_src_eq_model (b v t : Bytes) (n : Nat) (hb : b.length ≠ 0) :
+    scrypt_ro_mix_src b v t n = (scrypt_ro_mix b (chunks b.length v) t n).map (fun r => (r.1, r.2.1.flatten, r.2.2)) :=
+  scrypt_ro_mix_src_eq_chunks b v t n hb
+
+/-- `b = []`: `v.chunks_mut(0)` panics -/
+theorem scrypt_ro_mix_src_empty_refuses (v t : Bytes) (n : Nat) : scrypt_ro_mix_src [] v t n = none := scrypt_ro_mix_src_empty v t n
+
+/-- the invariant form, and its preservation: `v` given as the list of its `b.len()`-byte chunks -/
+theorem scrypt_ro_mix_src_eq_model_chunks (b : Bytes) (vs : List Bytes) (t : Bytes) (n : Nat) (hb : b.length ≠ 0)
+    (hvs : ∀ c ∈ vs, c.length = b.length) :
+    scrypt_ro_mix_src b vs.flatten t n = (scrypt_ro_mix b vs t n).map (fun r => (r.1, r.2.1.flatten, r.2.2)) :=
+  scrypt_ro_mix_src_eq b vs t n hb hvs
+
+theorem scrypt_ro_mix_preserves_chunks (b : Bytes) (vs : List Bytes) (t : Bytes) (n : Nat) (b' : Bytes) (vs' : List Bytes) (t' : Bytes)
+    (hvs : ∀ c ∈ vs, c.length = b.length) (h : scrypt_ro_mix b vs t n = some (b', vs', t')) : ∀ c ∈ vs', c.length = b.length :=
+  scrypt_ro_mix_facts b vs t n b' vs' t' hvs h
+
+example : (∀ c ∈ [[1, 2], [3, 4]], c.length = ([7, 8] : Bytes).length) ∧ ([7, 8] : Bytes).length ≠ 0 := by decide
+
+/-- `ScryptParams::new`: every assert, the three `checked_mul`, the struct — for ALL `log_n`, `r`, `p` -/
+theorem ScryptParams_new_src_eq_model (log_n r p : Nat) : ScryptParams.new_src log_n r p = ScryptParams.new log_n r p :=
+  ScryptParams_new_src_eq log_n r p
+
+/-- the invariant `scrypt` needs is established by the only constructor -/
+theorem new_establishes_log_n (log_n r p : Nat) (x : ScryptParams) (h : ScryptParams.new log_n r p = some x) : x.log_n < 64 :=
+  new_log_n log_n r p x h
+
+/-- the body of `for chunk in &mut b.chunks_mut(r128) { scrypt_ro_mix(chunk, &mut v, &mut t, n) }` -/
+theorem scrypt_loop_src_eq_model (n L : Nat) (hL : L ≠ 0) (cs vs : List Bytes) (t acc : Bytes) (hcs : ∀ c ∈ cs, c.length = L)
+    (hvs : ∀ x ∈ vs, x.length = L) : (scrypt_loop1_src n cs vs.flatten t acc).map (·.2.2) = scrypt_chunks n cs vs t acc :=
+  scrypt_loop1_eq n L hL cs vs t acc hcs hvs
+
+/-- `scrypt` for EVERY password, salt, output buffer (any length, incl. the refusals) and every parameter set with
+    `log_n < 64` (every value `ScryptParams::new` can return) -/
+theorem scrypt_src_eq_model (password salt : Bytes) (params : ScryptParams) (output : Bytes) (hlog : params.log_n < 64) :
+    scrypt_src password salt params output = scrypt password salt params output.length :=
+  scrypt_src_eq password salt params output hlog
+
+example : ({ log_n := 4, r := 8, p := 1 } : ScryptParams).log_n < 64 := by decide
 
 end Cx.Props.C10.GlueTieKdf
